@@ -87,12 +87,16 @@ def add_extras(files: T.Dict[str, str], setup_args: T.Sequence[str], seed: int,
     use_cpp = feat('cpp', 0.2)
     if use_cpp:
         args += [f'-Dcpp_std={rng.choice(["c++11", "gnu++17"])}', f'-Dcpp_args={rng.choice(["-DXX1,-DXX0", "-DXX0"])}']
-    if feat('env_flags', 0.4):
+    if feat('env_flags', 0.45):
         env['CFLAGS'] = rng.choice(['-DENV_CF -O1', '-DENV_B -DENV_A'])
         if rng.random() < 0.5:
             env['LDFLAGS'] = '-Wl,-O1 -Wl,--as-needed'
         if rng.random() < 0.5:
             env['CPPFLAGS'] = '-DENV_CPP_B -DENV_CPP_A'
+        if 'pkg_config_path' not in taken and rng.random() < 0.7:
+            env['PKG_CONFIG_PATH'] = ':'.join(_perm(rng, ['/xe/pc', '/xf/pc', '/xg/pc', '/xe/pc']))
+        if 'cmake_prefix_path' not in taken and rng.random() < 0.5:
+            env['CMAKE_PREFIX_PATH'] = ':'.join(_perm(rng, ['/xh', '/xi', '/xj']))
     # ---- project options file ------------------------------------------------------------------
     have_opts = False
     if 'meson.options' not in files and 'meson_options.txt' not in files and feat('project_options', 0.8):
